@@ -11,5 +11,7 @@
     FuseIns     the accumulation loop "look up or create zero block, write a slice"
     FuseOne, FuseInsert, FuseSem   fuseInsert for one multi-axis group
     FuseUnfuse, FuseRound, FuseAll unfuseA / unfuseAllA and the round trip
+    FuseElem    the element map of the fused array (splitAddr + un-permuting)
+    FuseConcat, FuseConcat2, FuseConcat3   fuseConcat made explicit; insert = concat
 -/
-import SymmModel.Proofs.FuseAll
+import SymmModel.Proofs.FuseConcat3
